@@ -73,6 +73,7 @@ specs["C02"] = {"runs": [
 specs["C03"] = {"runs": [
     run(CMD + "balance:Harness_balance_modes", Q, {"F": 2}, "real", cover=["printed"], note="every set of <=2 category paths from the 14 paths over {a,b} of depth <=3, each food logged once or twice, 3 display modes"),
     run(CMD + "balance:Harness_balance_modes", T, {"F": 3}, "real", cover=["printed"], note="all 469 path sets"),
+    run(CMD + "balance:Harness_golden_concrete", QT, {}, "fp", owned=["golden-"], cover=["golden-balance"], concrete_fmt=True, note="translator validation: the executor, all-concrete, reproduces the repository's five golden balance outputs byte for byte from testAssets/{food,log}.yaml"),
     run(CMD + "balance:Harness_balance_single", Q, {"F": 2, "catalogue": 6}, "real", cover=["printed"], note="--single-element X in all three modes: foods defining X (any amount incl. 0), defined without X, undefined"),
     run(CMD + "balance:Harness_balance_single", T, {"F": 3, "catalogue": 14}, "real", cover=["printed"]),
     run(CMD + "balance:Harness_reports_agree", Q, {"D": 1, "E": 2}, "real", owned=["balance-grand-total=sum-of-top-rows", "balance-rows-well-formed", "balance-grand-total-labelled"], note="--single-element: grand total = sum of the top-level rows"),
@@ -102,6 +103,7 @@ agree_owned = ["totals-row-sum", "period-total", "single-element-rows", "balance
 specs["C07"] = {"runs": [
     run(CMD + "balance:Harness_reports_agree", Q, {"D": 1, "E": 2}, "real", owned=agree_owned, cover=["totals-read"]),
     run(CMD + "stats:Harness_stats_counts", QT, {"R": 3}, cover=["ran"]),
+    run(CMD + "balance:Harness_golden_concrete", QT, {}, "fp", owned=["golden-"], cover=["golden-totals"], concrete_fmt=True, note="translator validation on the repository's golden `report totals` output"),
     run(CMD + "balance:Harness_reports_agree", T, {"D": 2, "E": 2}, "real", owned=agree_owned, cover=["totals-read"]),
  ], "assumptions": [REAL, DATA],
  "outside_claim": ["stats day distances (Time.Sub and Hours()/24 truncation: 64-bit multiplication by 10^9 is out of reach for the solvers)", "summary = register for that day beyond both calling the same GetReportItem (C02, C12)", "element-total rows vs resolved-book CSV rows (both read the same resolved map; C13, C05)", "rendered text"],
